@@ -34,7 +34,7 @@ TNext ==
          bad == (IF OneWorking(e) THEN {} ELSE {"C14.OneWorking"})
                 \cup (IF Truthful(e) THEN {} ELSE {"C14.Truthful"})
                 \cup (IF Authentic(e) THEN {} ELSE {"C14.Authentic"})
-                \cup (IF e.a[1] = "settled" /\ ~NotificationsMatch(e) THEN {"C14.NotificationsMatch"} ELSE {})
+                \cup (IF ~NotificationsMatch(e) THEN {"C14.NotificationsMatch"} ELSE {})
                 \cup (IF e.a[1] = "quiet-end" /\ ~Converged(e) THEN {"C14.EventuallyOneWorking"} ELSE {})
                 \cup (IF e.exc THEN {"C14.NoEscape"} ELSE {})
      IN /\ (bad # {}) => PrintT(<<"VIOL", tid, l, e.a, bad>>)
